@@ -1,7 +1,7 @@
 """C11 -- oversized and >4 GiB inputs are rejected cleanly; fed length reported exactly."""
 from .. import sym
 from ..norm import n, P, C, V, ANY, match, find_all, binop
-from . import common, cmpmodel, panics
+from . import common, cmpmodel, panics, c03
 
 ID = "C11"
 CONFIGS = {"quick": ["K0"], "thorough": ["K0", "K1", "K7", "K8"]}
@@ -15,11 +15,14 @@ META = {
         "its unwrap, and the saturation guard skeleton of update(): the early return on len >= MAX_LEN dominates "
         "every write of the counter, the amount added is the checked u32 conversion of the slice length or, under "
         "the dominating test, MAX_LEN - len with the slice truncated to the same amount, the two overflow checks on "
-        "the counter are discharged from those dominating tests, and nobody else writes the counters."
+        "the counter are discharged from those dominating tests, and nobody else writes the counters.  The tail-fill "
+        "prologue is evaluated as affine windows for tail_len = 0..4 and len(data) = 0..8 / >= 9 (R-11.5): it adds "
+        "min(len(data), TAIL_SIZE - tail_len) to tail_len and the slice that is then counted and iterated starts "
+        "exactly after the bytes moved into the tail, so no byte is counted twice or dropped at that boundary."
     ),
     "trusted_base": ["rustc nightly front end and constant evaluator"],
     "assumptions": ["x86_64 target (usize is 64 bit)"],
-    "not_decided": ["exactness of the byte counter for every sequence of piece sizes (value correctness of the tail after a truncated piece)",
+    "not_decided": ["exactness of the byte counter as an induction over arbitrary histories (decided per update() call: R-11.3 + R-11.5)",
                     "equality with the reference at exactly MAX bytes (C01 at a boundary)"],
 }
 
@@ -30,6 +33,9 @@ def run(ctx, FS):
         reported(ctx, F)
         guards(ctx, F)
         no_panic(ctx, F)
+        # tail_len accounting of the tail-fill prologue (shared with C03): tail_len' = tail_len + min(len(data), TAIL_SIZE - tail_len)
+        # and the counted/iterated slice starts right after the bytes moved into the tail
+        c03.prologue_windows(ctx, F, "R-11.5")
 
 
 def no_panic(ctx, F):
@@ -164,6 +170,14 @@ def _events_prefix(M, p):
     return out
 
 
+def _iter_source(e):
+    """the slice a by-value byte iterator walks: peels slice::iter / Iterator::copied / cloned / into_iter adapters
+    (`for &b in s`, `for b in s.iter().copied()` and `for b in s.iter().cloned()` iterate the same bytes)."""
+    while e[0] == "call" and len(e[2]) == 1 and e[1].endswith(("slice::<impl [T]>::iter", "Iterator::copied", "Iterator::cloned", "IntoIterator::into_iter")):
+        e = e[2][0]
+    return e
+
+
 def guards(ctx, F):
     r = "R-11.3"
     ctx.rule(r, "update(): early return on len >= MAX_LEN dominates counter writes; amount added is checked-converted length or MAX_LEN-len with the slice "
@@ -234,7 +248,7 @@ def guards(ctx, F):
                 its = [c for c in p.calls if c[1].endswith("into_iter") and c[0] > tbb]
                 ok_slice = False
                 for c in its:
-                    a = n(c[2][0])
+                    a = _iter_source(n(c[2][0]))
                     mi = match(("call", V("ix"), (m["data"], ("agg", V("rk"), (room,)))), a)
                     if mi and mi["ix"].endswith("::index") and mi["rk"].endswith("RangeTo::RangeTo"):
                         ok_slice = True
@@ -243,7 +257,7 @@ def guards(ctx, F):
             if tt is False:
                 its = [c for c in p.calls if c[1].endswith("into_iter") and c[0] > tbb]
                 for c in its:
-                    a = n(c[2][0])
+                    a = _iter_source(n(c[2][0]))
                     if a != m["data"]:
                         bad.append("un-truncated path iterates over %s but counts len(%s)" % (sym.fmt(a), sym.fmt(m["data"])))
             # overflow assertions on the counter are discharged by the dominating tests
